@@ -1370,7 +1370,7 @@ def parse_invariants_section(out, goal_ids):
             continue
         lhs = line[:-3].strip()
         for gid in ids:
-            lhs = lhs.replace(gid, place[gid])
+            lhs = re.sub(r"(?<![\w])" + re.escape(gid) + r"(?![\w(])", place[gid], lhs)
         loc = {place[g]: sp.Symbol(g) for g in goal_ids}
         e = sp.sympify(lhs, locals=loc)
         polys.append(e)
@@ -1407,5 +1407,16 @@ def run_polar_cli(case):
     cfs = LOG["closed_forms"][-1]
     goal_ids = list(cfs.keys())
     printed, none = parse_invariants_section(out, goal_ids)
+    # what is checked must be exactly what Polar computed and printed: the parsed lines have to reproduce the returned set
+    import sympy as sp
+    returned = list(LOG["bases"][-1])
+    left = list(returned)
+    for pz in printed:
+        hit = next((r for r in left if sp.expand(pz - r) == 0), None)
+        if hit is None:
+            raise CliSkip("cli-parse-mismatch", f"printed '{pz}' is not an element of the returned basis")
+        left.remove(hit)
+    if left or (none and returned):
+        raise CliSkip("cli-parse-mismatch", f"{len(left)} returned basis elements were not printed")
     return {"goal_ids": goal_ids, "closed_forms": cfs, "printed": printed, "returned": LOG["bases"][-1], "reported_none": none,
             "stdout": out}
